@@ -179,6 +179,8 @@ Definition unbytes_fin (f : fin) : fin :=
   | FCreateSlice rows => FCreateSlice (map unbytes rows)
   | FCreateMap kv => FCreateMap (map unbytes kv)
   | FCreateMaps rows => FCreateMaps (map unbytes rows)
+  | FSaveStruct fs => FSaveStruct (map unbytes fs)
+  | FSaveSlice rows => FSaveSlice (map unbytes rows)
   | FRaw s a => FRaw s (map unbytes a)
   | FExec s a => FExec s (map unbytes a)
   end.
@@ -320,6 +322,8 @@ Definition shape_fin (f : fin) : fin :=
   | FCreateSlice rows => FCreateSlice (map shape rows)
   | FCreateMap kv => FCreateMap (map shape kv)
   | FCreateMaps rows => FCreateMaps (map shape rows)
+  | FSaveStruct fs => FSaveStruct (map shape fs)
+  | FSaveSlice rows => FSaveSlice (map shape rows)
   | FRaw s a => FRaw s (map shape a)
   | FExec s a => FExec s (map shape a)
   end.
@@ -355,7 +359,8 @@ Definition fin_strings (f : fin) : list string :=
   | FFind c | FFirst c | FTake c | FLast c | FDelete c => vs c
   | FCount | FPluck _ => []
   | FUpdate _ v => value_strings v
-  | FUpdatesMap l | FUpdatesStruct l | FCreateStruct l | FCreateSlice l | FCreateMap l | FCreateMaps l => vs l
+  | FUpdatesMap l | FUpdatesStruct l | FCreateStruct l | FCreateSlice l | FCreateMap l | FCreateMaps l
+  | FSaveStruct l | FSaveSlice l => vs l
   | FRaw _ a | FExec _ a => vs a
   end.
 
